@@ -55,10 +55,23 @@ def run(ctx):
             cfg.update({"readonly": i % 2 == 0, "fortran": i % 3 == 0, "matrix_lambda": i % 4 == 1,
                         "vector_beta": (i % 4 == 2), "eps": [0, 0.05][i % 5 == 3],
                         "fail": [None, "worker", "wrong-front-end", "no-donor"][(i // 2) % 4] if i % 3 == 1 else None})
+            if i % 5 == 4:
+                # sensor drop-outs: NaN samples in the caller's data (the call fails — the mixture model rejects NaN — or,
+                # should the library ever clean such data up, it must do so on its own copy); W = 1 is the shape in
+                # which a stacked array could alias the input
+                cfg.update({"nan_data": True, "fortran": False, "fail": None, "joint": bool(i % 10 == 9)})
+                if i % 10 == 4:
+                    cfg["W"] = 1
             cfgs.append(cfg)
 
     for cfg in cfgs:
-        series = [prep(s, cfg.get("readonly"), cfg.get("fortran")) for s in tu.config_data(cfg)]
+        series = tu.config_data(cfg)
+        if cfg.get("nan_data"):
+            rs_n = np.random.RandomState(cfg["seed"] % 2 ** 31)
+            for s_ in series:
+                for _ in range(3):
+                    s_[rs_n.randint(s_.shape[0]), rs_n.randint(s_.shape[1])] = np.nan
+        series = [prep(s, cfg.get("readonly"), cfg.get("fortran")) for s in series]
         n = cfg["N"] * cfg["W"]
         npts = sum(s.shape[0] - cfg["W"] + 1 for s in series)
         kw = tu.config_kwargs(cfg)
@@ -125,7 +138,7 @@ def run(ctx):
         ctx.count("calls_raised" if err is not None else "calls_returned")
         if err is not None:
             ctx.count("raised:" + type(err).__name__)
-        for k in ("readonly", "fortran", "matrix_lambda", "vector_beta"):
+        for k in ("readonly", "fortran", "matrix_lambda", "vector_beta", "nan_data"):
             if cfg.get(k):
                 ctx.count(k)
         ctx.case(("cfg", repr(sorted((k, repr(v)) for k, v in cfg.items()))),
